@@ -12,7 +12,8 @@
      {"op":"learn","src":"0a","info":{maxApdu,seg,maxSegs,maxNpdu}}   I-Am seen by the application
      {"op":"reqdecode","svc":n,"hex":"…"}    the ASAP service decoder alone
    replies
-     {"r":"ok","fate":"…","wf":invoke|null,"out":[[dst|null,"<octets>"]…],"asked":n,"starved":n,
+     {"r":"ok","fate":"…","wf":invoke|null,"out":[[dst|null,"<octets>"]…],"hd":[[ty,invoke,seg,code]|null…],
+      "asked":n,"starved":n,
       "sv":[[peer,id,state]…],"cl":n,"dcc":n,"br":"…"}
 -/
 import BacVerif.Drv.TsmDrv
@@ -84,9 +85,17 @@ def hdrSig (f : Frame) : String :=
   | some h => s!"{h.ty}{if h.seg then "s" else ""}" ++ (if h.ty = 6 ∨ h.ty = 7 then s!"r{h.code}" else "")
   | none => "x"
 
+/-- the property's own reading of an output frame (`Device.replyHdr`), so that the harness can hold
+    it against its independent header decoder -/
+def jHdrOf (f : Frame) : Json :=
+  match replyHdr f.octets with
+  | some h => Json.arr #[Json.num h.ty, Json.num h.invoke, Json.bool h.seg, Json.num h.code]
+  | none => Json.null
+
 def report (st : DSt) (extra : List (String × Json)) (outs : List Frame) (br : String) : Json :=
   jOk (extra ++
     [("out", Json.arr (outs.map jFrame).toArray),
+     ("hd", Json.arr (outs.map jHdrOf).toArray),
      ("asked", Json.num st.dev.app.asked), ("starved", Json.num st.dev.app.starved),
      ("sv", Json.arr (st.dev.sap.servers.map jSv).toArray),
      ("cl", Json.num st.dev.sap.clients.length),
